@@ -17,6 +17,9 @@ pub struct TaskPlan {
     /// 0 = Impl<AppA>, 1 = Impl<AppB>, 2 = a clone of the run's partial Unimock
     pub app: u8,
     pub calls: Vec<CallPlan>,
+    /// run this (sync-only) task on its own parked OS thread, released one
+    /// run-segment at a time, so that sync calls overlap deterministically
+    pub threaded: bool,
 }
 
 #[derive(Clone, Debug, PartialEq)]
@@ -45,6 +48,7 @@ impl Plan {
         json!({
             "tasks": self.tasks.iter().map(|t| json!({
                 "app": t.app,
+                "threaded": t.threaded,
                 "calls": t.calls.iter().map(|c| json!({
                     "method": c.method,
                     "name": crate::dispatch::MODEL[c.method as usize].name,
@@ -71,6 +75,7 @@ impl Plan {
                     a.iter()
                         .map(|t| TaskPlan {
                             app: u(&t["app"]) as u8,
+                            threaded: t["threaded"].as_bool().unwrap_or(false),
                             calls: t["calls"]
                                 .as_array()
                                 .map(|cs| {
